@@ -23,6 +23,7 @@ import LbfgsbVerif.Proofs.BfgsInverse
 import LbfgsbVerif.Proofs.FullNewton
 import LbfgsbVerif.Props.C10Kernel
 import LbfgsbVerif.Props.C01Curv
+import LbfgsbVerif.Props.C08Free
 
 set_option linter.unusedSectionVars false
 
@@ -294,6 +295,101 @@ theorem complete_iteration_is_lbfgs (lb ub : Vec K) (e : K) (x g : Vec K) (X G :
       C18.twoLoop ((kernelInput x g lb ub (some (X, G)) e).theta⁻¹ • (1 : Matrix (Fin x.length) (Fin x.length) K))
         (pairsOf x.length (diffs X) (diffs G)) (vec x.length (kernelInput x g lb ub (some (X, G)) e).g) = _
   rw [hi]
+
+/-- **C12 (… with hypotheses on the data only)** the same, with "the Cauchy point is strictly inside the box" replaced by a condition
+on the inputs: the segment from `x` to a little beyond the unconstrained Cauchy step `x − t* g`, `t* = gᵀg / gᵀBg` (`B` the BFGS matrix
+of the stored pairs), lies in the box, strictly at `t*` (C08 `cauchy_unconstrained_step`: the Cauchy point is then `x − t* g`). -/
+theorem complete_iteration_is_lbfgs_data (lb ub : Vec K) (e : K) (x g : Vec K) (X G : List (Vec K))
+    (hX : X.length > 1) (hXG : X.length = G.length) (hn : 0 < x.length)
+    (hS : ∀ j, j < (diffs X).length → ((diffs X).getD j []).length = x.length)
+    (hY : ∀ j, j < (diffs X).length → ((diffs G).getD j []).length = x.length)
+    (hcurv : ∀ j, j < (diffs X).length → vec x.length ((diffs X).getD j []) ≠ 0 ∧
+      0 < vec x.length ((diffs X).getD j []) ⬝ᵥ vec x.length ((diffs G).getD j []))
+    (hθ : 0 < thetaOf X G) (box : InBoxF lb ub x)
+    (floor : ∀ dd : Fin x.length → K, dd ≠ 0 →
+      (∀ r, dd r = 0 ∨ dd r = vec x.length (cauchyD0 (breakpoints x (fitTo x g) lb ub) (fitTo x g)) r) →
+      e * f2orgOf (kernelInput x g lb ub (some (X, G)) e) ≤
+        dd ⬝ᵥ (C10.bfgsChain ((thetaOf X G) • (1 : Matrix (Fin x.length) (Fin x.length) K))
+          (pairsOf x.length (diffs X) (diffs G)) *ᵥ dd))
+    (hG : vec x.length (fitTo x g) ≠ 0) (T : K)
+    (hT : (vec x.length (fitTo x g) ⬝ᵥ vec x.length (fitTo x g)) /
+        (vec x.length (fitTo x g) ⬝ᵥ (C10.bfgsChain ((thetaOf X G) • (1 : Matrix (Fin x.length) (Fin x.length) K))
+          (pairsOf x.length (diffs X) (diffs G)) *ᵥ vec x.length (fitTo x g))) < T)
+    (hTbox : InBoxF lb ub (vsub x (smul T (fitTo x g))))
+    (hstrict : StrictIn lb ub (vsub x (smul ((vec x.length (fitTo x g) ⬝ᵥ vec x.length (fitTo x g)) /
+        (vec x.length (fitTo x g) ⬝ᵥ (C10.bfgsChain ((thetaOf X G) • (1 : Matrix (Fin x.length) (Fin x.length) K))
+          (pairsOf x.length (diffs X) (diffs G)) *ᵥ vec x.length (fitTo x g)))) (fitTo x g))))
+    (hN : ∀ r : Fin x.length,
+      vec x.length lb r ≤ (vec x.length x - C18.twoLoop ((thetaOf X G)⁻¹ • (1 : Matrix (Fin x.length) (Fin x.length) K))
+        (pairsOf x.length (diffs X) (diffs G)) (vec x.length (fitTo x g))) r ∧
+      (vec x.length x - C18.twoLoop ((thetaOf X G)⁻¹ • (1 : Matrix (Fin x.length) (Fin x.length) K))
+        (pairsOf x.length (diffs X) (diffs G)) (vec x.length (fitTo x g))) r ≤ vec x.length ub r) :
+    vec x.length (xbarModel lb ub e x g (some (X, G))) =
+      vec x.length x - C18.twoLoop ((thetaOf X G)⁻¹ • (1 : Matrix (Fin x.length) (Fin x.length) K))
+        (pairsOf x.length (diffs X) (diffs G)) (vec x.length (fitTo x g)) := by
+  have hi : kernelInput x g lb ub (some (X, G)) e =
+      { x, g := fitTo x g, lb, ub, theta := thetaOf X G, W := buildW x.length (thetaOf X G) (diffs X) (diffs G),
+        Minv := buildMinv (thetaOf X G) (diffs X) (diffs G), useFactor := true, epsFsec := e } := by
+    simp only [kernelInput, hX, if_true]
+  have hSY : (diffs X).length = (diffs G).length := by rw [diffs_length, diffs_length, hXG]
+  have hm := lOf_length x.length (diffs X) (diffs G) hSY
+  obtain ⟨Mm, hM⟩ := kernel_minv_invertible x.length (thetaOf X G) (diffs X) (diffs G) hθ hSY hS hY hcurv
+  obtain ⟨hB, hspd⟩ := C10.kernel_matrix_is_bfgs x.length (thetaOf X G) (diffs X) (diffs G) hθ hSY hS hY hcurv Mm hM
+  -- sizes of the kernel input
+  obtain ⟨sW, srow, sk, -, -, -⟩ := kernelInput_sizes x g lb ub X G e hX hXG hn
+  have hkk : 2 * (X.length - 1) = (lOf x.length (diffs X) (diffs G)).length + (lOf x.length (diffs X) (diffs G)).length := by
+    rw [hm, diffs_length]; omega
+  have hg : (fitTo x g).length = x.length := fitTo_length x g
+  rw [hi] at sW srow sk
+  have hsym : (wmat ((lOf x.length (diffs X) (diffs G)).length + (lOf x.length (diffs X) (diffs G)).length)
+      ((lOf x.length (diffs X) (diffs G)).length + (lOf x.length (diffs X) (diffs G)).length)
+      (buildMinv (thetaOf X G) (diffs X) (diffs G)))ᵀ =
+      wmat _ _ (buildMinv (thetaOf X G) (diffs X) (diffs G)) := by
+    funext a b
+    simp only [transpose_apply, wmat]
+    exact buildMinv_symm _ _ _ b a (by have := b.2; omega) (by have := a.2; omega)
+  have hMl : (buildMinv (thetaOf X G) (diffs X) (diffs G)).length =
+      (lOf x.length (diffs X) (diffs G)).length + (lOf x.length (diffs X) (diffs G)).length := by
+    rw [C10.buildMinv_length, hm]
+  have hMrow : ∀ r, r < (lOf x.length (diffs X) (diffs G)).length + (lOf x.length (diffs X) (diffs G)).length →
+      ((buildMinv (thetaOf X G) (diffs X) (diffs G)).getD r []).length =
+        (lOf x.length (diffs X) (diffs G)).length + (lOf x.length (diffs X) (diffs G)).length := by
+    intro r hr
+    rw [hm]
+    apply C10.buildMinv_rows
+    rw [List.getD_eq_getElem?_getD, List.getElem?_eq_getElem (by rw [C10.buildMinv_length, ← hm]; exact hr)]
+    exact List.getElem_mem _
+  -- the context of the Cauchy theorems
+  have hq : QCtx (kernelInput x g lb ub (some (X, G)) e) x.length _ Mm := by
+    rw [hi]
+    exact C09.qctx_of_pivots _ x.length _ Mm rfl hg sW (fun r hr => by rw [srow r hr, hkk]) rfl hMl hMrow hM hsym
+  have hpd : ∀ a : Fin x.length → K, a ≠ 0 →
+      0 < a ⬝ᵥ (bmat (thetaOf X G) (wmat x.length _ (buildW x.length (thetaOf X G) (diffs X) (diffs G))) Mm *ᵥ a) := by
+    intro a ha; rw [hB]; exact hspd.2 a ha
+  have hmin : MinCtx (kernelInput x g lb ub (some (X, G)) e) x.length _ Mm (f2orgOf (kernelInput x g lb ub (some (X, G)) e)) := by
+    refine ⟨hq, ?_, ?_, ?_⟩
+    · rw [hi]; exact box
+    · rw [hi]; exact hpd
+    · intro dd hne hpat
+      have := floor dd hne (by rw [hi] at hpat; exact hpat)
+      rw [hi]
+      show e * _ ≤ dd ⬝ᵥ (bmat (thetaOf X G) _ Mm *ᵥ dd)
+      rw [hB]
+      rw [hi] at this
+      exact this
+  have hk : kOf (kernelInput x g lb ub (some (X, G)) e) =
+      (lOf x.length (diffs X) (diffs G)).length + (lOf x.length (diffs X) (diffs G)).length := by
+    rw [hi, sk, hkk]
+  -- the Cauchy step and the context of the subspace theorems
+  have hstep := C08.cauchy_unconstrained_step (kernelInput x g lb ub (some (X, G)) e) x.length _ Mm hk hmin
+    (by rw [hi]; exact hG) T
+    (by rw [hi]; show _ / (_ ⬝ᵥ (bmat (thetaOf X G) _ Mm *ᵥ _)) < T; rw [hB]; exact hT)
+    (by rw [hi]; exact hTbox)
+  apply complete_iteration_is_lbfgs lb ub e x g X G hX hXG hn hS hY hcurv hθ box floor _ hN
+  rw [hstep, hi]
+  show StrictIn lb ub (vsub x (smul (_ / (_ ⬝ᵥ (bmat (thetaOf X G) _ Mm *ᵥ _))) (fitTo x g)))
+  rw [hB]
+  exact hstrict
 
 end Lbfgsb.C12
 
